@@ -51,11 +51,11 @@ Example C18_selective_nontrivial :
 Proof. exact pruned_method_not_found. Qed.
 Print Assumptions C18_selective_nontrivial.
 
-(* ---- package layout: the validation runs per sub-package view ---- *)
+(* ---- package layout: the validation runs per sub-package view, against the methods of the whole API ---- *)
 
-(* whatever the layout of services over proto sub-packages, an entry with a violation (judged against the whole API:
-   unknown method, streaming, bad field) is rejected by EVERY view, so no view that gets evaluated lets it through;
-   duplicates are covered by C18_duplicates_rejected, which holds for every table, hence for every view *)
+(* whatever the layout of services over proto sub-packages, an entry with a violation (unknown method, streaming, bad
+   field) is rejected by EVERY view, so no view that gets evaluated lets it through; duplicates are covered by
+   C18_duplicates_rejected, which holds for every table *)
 Theorem C18_violation_rejected_in_every_layout : forall view ms settings s,
   methods_wf (full_table ms) -> In s settings -> violates (full_table ms) s ->
   enforce (view_table view ms) settings = Crashed \/
@@ -69,21 +69,32 @@ Theorem C18_violation_never_generated : forall ms settings s m0,
 Proof. exact violation_never_generated. Qed.
 Print Assumptions C18_violation_never_generated.
 
-(* the converse does NOT hold of the code: settings that are valid for the whole API are rejected when some service
-   lives in a sub-package whose view does not hold the named method ("Method was not found.") *)
-Theorem C18_layout_valid_settings_rejected_refuted :
-  exists ms settings,
-    methods_wf (full_table ms) /\ spec_valid (full_table ms) settings /\ generation_accepts ms settings = false /\
-    In (Rejected [("pkg.Lib.CreateBook", SMethodNotFound)]) (view_outcomes ms settings).
-Proof. exact layout_valid_settings_rejected_refuted. Qed.
-Print Assumptions C18_layout_valid_settings_rejected_refuted.
+(* settings that are valid for the API are accepted by every view in every layout ... *)
+Theorem C18_valid_accepted_in_every_layout : forall view ms settings,
+  methods_wf (full_table ms) -> spec_valid (full_table ms) settings ->
+  enforce (view_table view ms) settings = Accepted.
+Proof. exact valid_accepted_in_every_layout. Qed.
+Print Assumptions C18_valid_accepted_in_every_layout.
 
+(* ... so, with at least one service, generation succeeds exactly under the property's sentence, in every layout *)
+Theorem C18_generation_accepts_iff_spec : forall ms settings m0,
+  methods_wf (full_table ms) -> In m0 ms ->
+  (generation_accepts ms settings = true <-> spec_valid (full_table ms) settings).
+Proof. exact generation_accepts_iff_spec. Qed.
+Print Assumptions C18_generation_accepts_iff_spec.
+
+(* the former witness (a top-level method named while another service lives in sub-package admin) is accepted by both
+   views although the admin view holds only its own method; violations are rejected by both *)
 Example C18_layout_nontrivial :
+  methods_wf (full_table layout_mixed) /\
+  spec_valid (full_table layout_mixed) [mkSetting "pkg.Lib.CreateBook" ["request_id"]] /\
+  view_outcomes layout_mixed [mkSetting "pkg.Lib.CreateBook" ["request_id"]] = [Accepted; Accepted] /\
+  own_methods ["admin"] layout_mixed = [mkMethod "pkg.admin.Admin.CreateThing" false false (Some [f_name; f_opt_id])] /\
   view_outcomes layout_mixed [mkSetting "pkg.Lib.CreateBooks" ["request_id"]]
     = [Rejected [("pkg.Lib.CreateBooks", SMethodNotFound)]; Rejected [("pkg.Lib.CreateBooks", SMethodNotFound)]] /\
   view_outcomes layout_mixed [mkSetting "pkg.Lib.CreateBook" ["name"]]
-    = [Rejected [("pkg.Lib.CreateBook", SFields [("name", FRequired); ("name", FNotUuid4)])]; Rejected [("pkg.Lib.CreateBook", SMethodNotFound)]] /\
-  generation_accepts layout_mixed [mkSetting "pkg.admin.Admin.CreateThing" ["opt_id"]] = true.
+    = [Rejected [("pkg.Lib.CreateBook", SFields [("name", FRequired); ("name", FNotUuid4)])];
+       Rejected [("pkg.Lib.CreateBook", SFields [("name", FRequired); ("name", FNotUuid4)])]].
 Proof. exact layout_example. Qed.
 Print Assumptions C18_layout_nontrivial.
 
